@@ -174,5 +174,6 @@ PROPERTIES = {
     assumptions=TRUSTED + ['ref_utf.h (written from Unicode ch.3 Table 3-7; self-tested against fixed vectors at every start)'],
     units=[U('c11_utf_valid', 'c11_utf_valid.cpp', needs_lib=False,
              quick=dict(cases=6000, shards=16, min_eval=1000000),
-             thorough=dict(cases=400000, shards=16, min_eval=1000000))]),
+             thorough=dict(cases=400000, shards=16, min_eval=1000000)),
+           U('c11_archive_strings', 'c11_archive_strings.cpp', flavour='asan', libs=['-lpugixml'], quick=dict(cases=15000, shards=4, min_eval=20000), thorough=dict(cases=400000, shards=8, min_eval=500000))]),
 }
